@@ -297,7 +297,10 @@ def replay(w):
             except SystemError:
                 pass
             return {'reproduced': bool(bad), 'what': 'extrapolate_system: ' + '; '.join(bad), 'detail': {}}
-        man.extrapolate_system(outp)
+        try:
+            man.extrapolate_system(outp)
+        except Exception as e:
+            return {'reproduced': True, 'what': 'extrapolate_system (molecules %s, ends %s): raised %s: %s' % (''.join(seq), given, type(e).__name__, e), 'detail': {}}
         g = GroFile(outp)
         got = g.readlines()
         want = []
